@@ -1,6 +1,7 @@
 import Protocol
 import DriverJournal
 import DriverHash
+import DriverRealtime
 open Lean Gtfs Gtfs.Proto
 
 def dispatch (j : Json) : R Json := do
@@ -8,6 +9,7 @@ def dispatch (j : Json) : R Json := do
   match kind with
   | "journal" => DJournal.handle j
   | "hash" => DHash.handle j
+  | "realtime" => DRt.handle j
   | "dirsrc" => DJournal.handleDir j
   | k => throw s!"unknown kind {k}"
 
